@@ -237,6 +237,30 @@ theorem alter_detail (g : Int) (st : StreamType) (other : List Nat) (e a : Resul
   simp only [h1, h2, checkError, List.mem_append]
   exact Or.inl (Or.inl (Or.inl (Or.inr this)))
 
+/-- Two `RequestInfo` details at the same index are compared like the request information of a
+first response: whatever `checkRequestInfo` names (headers, timeout, query parameters, echoed
+requests) is recorded, at every index. -/
+theorem detail_request_info (g : Int) (st : StreamType) (other : List Nat) (e a : Result) (ee ae : Err) (i : Nat)
+    (h1 : e.error = some ee) (h2 : a.error = some ae)
+    (hi : i < ee.details.length) (hi' : i < ae.details.length) (er ar : ReqInfo)
+    (he : ee.details[i] = .reqInfo er) (ha : ae.details[i] = .reqInfo ar) (d : Discrepancy)
+    (hd : d ∈ checkRequestInfo g er ar true) : d ∈ assert g st other e a := by
+  have := mem_checkDetailsFrom_reqInfo g 0 ee.details ae.details i hi hi' er ar he ha d hd
+  unfold assert
+  simp only [h1, h2, checkError, List.mem_append]
+  exact Or.inl (Or.inl (Or.inl (Or.inr this)))
+
+/-- Swapping two payloads whose bytes differ is named at both positions. -/
+theorem swap_payloads (g : Int) (st : StreamType) (other : List Nat) (e a : Result) (i j : Nat)
+    (hi : i < e.payloads.length) (hj : j < e.payloads.length)
+    (hi' : i < a.payloads.length) (hj' : j < a.payloads.length)
+    (hsi : a.payloads[i] = e.payloads[j]) (hsj : a.payloads[j] = e.payloads[i])
+    (hd : (e.payloads[i]).data ≠ (e.payloads[j]).data) :
+    .payloadData (i + 1) ∈ assert g st other e a ∧ .payloadData (j + 1) ∈ assert g st other e a := by
+  constructor
+  · exact flip_payload_byte g st other e a i hi hi' (by rw [hsi]; exact fun h => hd h.symm)
+  · exact flip_payload_byte g st other e a j hj hj' (by rw [hsj]; exact hd)
+
 /-- An altered echoed request is named by its index, for the k-th request of the n-th payload. -/
 theorem alter_request (g : Int) (st : StreamType) (other : List Nat) (e a : Result) (i k : Nat)
     (he : i < e.payloads.length) (ha : i < a.payloads.length)
